@@ -264,6 +264,15 @@ def run(ctx):
         _ob, _sf = vlib.skeleton_tie(prop, "core", only=["Blockchain.verifyNeighborBlockchain", "Blockchain.Blocks"])
         extra.append(_ob)
         failures += _sf
+        # the arithmetic a peer's requested height goes through, regenerated from the source: no slice panic for any height
+        gen, obs, afails, aths = vlib.arith_tie(prop)
+        if gen:
+            generated.append(gen)
+        extra += obs
+        failures += afails
+        lean["theorems"] = lean["theorems"] + aths
+        lean["ok"] = lean["ok"] and all(t["ok"] for t in aths) and not afails
+        ctx.log(f"arith tie (Gen.blocksRange regenerated): {'ok' if not afails else 'NOT ok'}")
 
     def done(corr=None):
         return vlib.result(lean=lean, corr=corr, failures=failures, generated=generated, extra_obligations=extra,
